@@ -8,14 +8,46 @@ from .stmts import assigned_names
 
 
 class LoopMixin:
-    def loop_spec(self, node):
-        """sidecar loop spec for this loop (keyed by ordinal within the function under verification)"""
+    def loop_spec(self, node, st=None, body=None, src=None):
+        """sidecar loop spec for this loop (keyed by ordinal within the function under verification).
+        A loop the sidecar does not know (new code) gets the trivial invariant with an inferred frame; every obligation generated
+        after it is marked `unannotated_loop`, so that a failure there is reported as a violation only when it replays on the real code"""
         ordn = self.loop_ordinals.get(id(node))
         spec = (self.cur_contract.loops if self.cur_contract else {}).get(ordn)
+        if spec is None and st is not None:
+            spec = self.infer_loop_spec(node, st, body, src)
+            self.unannotated_loops.append((self.cur_fn, ordn, getattr(node, "lineno", 0)))
+            st.ghost = dict(st.ghost, unannotated_loop=True)
         return ordn, spec
+
+    def infer_loop_spec(self, node, st, body, src):
+        """dry-run the body once from the current state to learn which heap components it writes; havoc those wholesale"""
+        probe = st.fork()
+        n0 = len(probe.writes)
+        saved_obs, saved_calls = self.obligations, list(self.calls_seen)
+        self.obligations = []
+        comps = set()
+        try:
+            states = [probe]
+            if isinstance(node, ast.For) and src is not None:
+                i = fresh("_probe_i")
+                states = self.assign(node.target, src[3](probe, i), probe)
+            elif isinstance(node, ast.While):
+                states = [s2 for s2, b in self.ev_truth(node.test, probe) if b]
+            for r in self.exec_block(body, states):
+                for w in r.writes[n0:]:
+                    if w[0] != "cls":
+                        comps.add(w[0])
+        finally:
+            self.obligations = saved_obs
+            self.calls_seen = saved_calls
+        return dict(invariant=[], modifies=["@" + c for c in sorted(comps)], auto=True)
 
     def oblige(self, st, kind, tag, goal, node=None, meta=None):
         name = f"{self.cur_fn}:{kind}:{tag}"
+        meta = dict(meta or {})
+        if st.ghost.get("unannotated_loop"):
+            meta["unannotated_loop"] = True
         self.obligations.append(Obligation(name, kind, st.hyps(), goal, where=self.where(node) if node is not None else self.cur_fn, meta=meta))
 
     def spec_eval(self, text, st, extra_env=None, old=None, goal=False):
@@ -61,7 +93,7 @@ class LoopMixin:
             if isinstance(x, dict):
                 return ("static", [self.lit(k) for k in x])
             return ("static", [self.lit(i) for i in x])
-        if v.k == "ref" and v.note and v.note[0] == "static_items":
+        if v.k == "ref" and v.note and v.note[0] == "static_items" and st.items(v.t).eq(v.note[2]):
             return ("static", v.note[1])
         if v.k == "iter":
             kind = v.xs[0]
@@ -101,6 +133,23 @@ class LoopMixin:
                 return ("seq", keys, None, lambda s, i: V("tuple", xs=[V("val", keys[i]), V("val", z3.Select(m, keys[i]))]))
             if kind == "map":
                 raise Unsupported(f"{self.where(node)}: iteration over map()")
+        if v.k in ("ref", "val") and v.cls == "iterable":
+            # an iterable of unknown class: a list / tuple object, or a repo Sequence (Stack) iterated through the Sequence mix-in
+            r = self.as_ref(v, st)
+            seq = st.items(r)
+            for k, fld in self.sequence_backing.items():
+                ids = self.subclass_ids(k)
+                ft = self.field_type(k, fld)
+                inner = st.items(Val.r(st.read(f"{ft[0]}.{fld}", r, Val)))
+                seq = z3.If(z3.Or([st.cls_of(r) == i for i in ids]), inner, seq)
+            return ("seq", seq, None, lambda s, i: V("val", seq[i]))
+        if v.k in ("ref", "val") and v.cls in self.sequence_backing and v.cls and not self.repo.attr(v.cls, "__iter__"):
+            fld = self.sequence_backing[v.cls]
+            ft = self.field_type(v.cls, fld)
+            r = self.as_ref(v, st)
+            lst = self.unbox(st.read(f"{ft[0]}.{fld}", r, Val), ft[1], st)
+            seq = st.items(lst.t)
+            return ("seq", seq, lst.elem, lambda s, i: self.unbox(seq[i], lst.elem, s))
         if v.k in ("ref", "val") and v.cls == "dict":
             keys = st.read("dict.keys", self.as_ref(v, st))
             return ("seq", keys, None, lambda s, i: V("val", keys[i]))
@@ -113,6 +162,13 @@ class LoopMixin:
             if len(res) != 1 or res[0][0].status != "run":
                 raise Unsupported(f"{self.where(node)}: __iter__ forks")
             return self.iter_source(res[0][1], res[0][0], node)
+        if v.k == "val" and v.cls is None:
+            # a value of unknown class used as an iterable: type assumption "a list or tuple object" (C13's type obligations check it)
+            st.log.append(("assume-seq", getattr(node, "lineno", 0)))
+            st.assume(Val.is_R(v.t))
+            st.wf_ref(Val.r(v.t))
+            seq = st.items(Val.r(v.t))
+            return ("seq", seq, None, lambda s, i: V("val", seq[i]))
         if v.k == "str":
             raise Unsupported(f"{self.where(node)}: iteration over str")
         if v.k == "bytes":
@@ -178,17 +234,20 @@ class LoopMixin:
                     st.env[n] = V("val", fresh(n, Val))
                 else:
                     raise Unsupported(f"{self.where(node)}: loop assigns {n} of kind {old.k}")
-        for m in (spec.get("modifies") or []):
-            self.havoc_target(m, st)
+        saved_origin = st.origin
+        st.origin = "loop-havoc"
+        try:
+            for m in (spec.get("modifies") or []):
+                self.havoc_target(m, st)
+        finally:
+            st.origin = saved_origin
         if spec.get("allocates", True):
             st.bump_alloc()
         if st.yielded is not None or spec.get("yields"):
             st.yielded = fresh("yielded", SeqV)
 
     def for_invariant(self, s, src, st):
-        ordn, spec = self.loop_spec(s)
-        if spec is None:
-            raise Unsupported(f"{self.where(s)}: loop #{ordn} iterates over a symbolic sequence and has no invariant in the sidecar")
+        ordn, spec = self.loop_spec(s, st, s.body, src if src[0] != "seq" else ("seq", src[1], src[2], src[3]))
         if src[0] == "seq":
             seq, n, mk = src[1], z3.Length(src[1]), src[3]
         else:
@@ -245,9 +304,7 @@ class LoopMixin:
 
     # ---- while ----------------------------------------------------------------------------------------------------------
     def st_While(self, s, st):
-        ordn, spec = self.loop_spec(s)
-        if spec is None:
-            raise Unsupported(f"{self.where(s)}: while loop #{ordn} has no invariant in the sidecar")
+        ordn, spec = self.loop_spec(s, st, s.body, None)
         entry = st.fork()
         ghost = dict(spec.get("ghost_init", {}))
         genv = {}
@@ -257,6 +314,7 @@ class LoopMixin:
         for j, inv in enumerate(spec.get("invariant", [])):
             self.oblige(st, "inv-init", f"loop{ordn}#{j}", self.spec_eval(inv, st, None, old=entry, goal=True), s, meta={"clause": inv})
         self.havoc_for_loop(st, s.body, spec, s)
+        st.ghost = dict(st.ghost, **{f"loop{ordn}_log": len(st.log), f"loop{ordn}_writes": len(st.writes)})
         for g in ghost:
             oldv = st.env[g]
             st.env[g] = V(oldv.k, fresh(g, oldv.t.sort()), cls=oldv.cls, elem=oldv.elem)
@@ -288,7 +346,7 @@ class LoopMixin:
                         for g, upd in (spec.get("ghost_break") or {}).items():
                             r.env[g] = self.spec_value(upd, r, None, old=entry)
                         for fact in (spec.get("at_break") or []):
-                            r.assume(self.spec_eval(fact, r, None, old=entry)) if False else None
+                            r.assume(self.spec_eval(fact, r, None, old=entry))
                         out.append(r)
                     else:
                         out.append(r)
@@ -297,6 +355,8 @@ class LoopMixin:
     def loop_frame(self, r, ordn):
         """the writes of a loop-body path never reach a final state: check them against the function's frame at the back edge"""
         self._loop_frame_n = getattr(self, "_loop_frame_n", 0) + 1
+        if self.back_edge_hook is not None:
+            self.back_edge_hook(self, r, ordn, self._loop_frame_n)
         saved_env = r.env
         try:
             r.env = {n.lstrip("*"): self.cur_entry.env[n.lstrip("*")] for n, _, _ in self.cur_contract.params}
@@ -337,6 +397,8 @@ class LoopMixin:
                 st.havoc_at(f"{key}.{node.attr}", o.t, self.sort_for(ft))
                 return
             ft = self.field_type(o.cls, node.attr) if o.cls else self.unique_field(node.attr)
+            if ft is None and node.attr in self.ast_field_names:
+                ft = ("ast", "val")
             if ft is None:
                 raise Unsupported(f"modifies {text}: undeclared field")
             st.havoc_at(f"{ft[0]}.{node.attr}", self.as_ref(o, st), self.sort_for(ft[1]))
